@@ -1,5 +1,6 @@
 """C01 - integrators converge at their advertised order: static necessary conditions (consistency of every
 composition, processors inverse, coefficient tables against their definitions, dispatch exhaustiveness)."""
+import re
 from fractions import Fraction
 
 from ..core import AnalysisError, anchor
@@ -191,7 +192,37 @@ def rule_bs_coupling(ctx):
     ctx.covered('R01.7', 'Bulirsch-Stoer sub-steps: particle array refreshed from y1 before the coupled right-hand sides are evaluated', n, floor=2, samples=samples)
 
 
+def rule_jerk_homogeneity(ctx):
+    """R01.9: the modified-kick kernel and the SABA correctors add dt^3/24 (or the corrector weight) times the "jerk" to
+    the velocities, so every term accumulated into the jerk buffer must have the dimension L T^-4 (an acceleration per
+    time squared = G m a / r^3 ...). A term that lost or gained a factor G, a mass or a length makes the scheme wrong by a
+    factor that depends on the unit system (the method silently drops to second order when G != 1)."""
+    from . import e9
+    tu = cfront.load_tu('integrator_whfast.c')
+    fn = tu.func('reb_whfast_calculate_jerk')
+    t = e9.Typer(fn, names={'G': e9.G_}).run()
+    want = e9.fmt(e9.D(1, -4, 0))
+    n = 0
+    samples = []
+    stores = 0
+    for line, what, a, b, txt in t.conflicts:
+        n += 1
+        if what.startswith('the store') and txt.replace(' ', '').startswith('(jerk['):
+            stores += 1
+            if b != want:
+                ctx.report('R01.9', 'jerk:dim:%s' % re.sub(r'\[[ij]\]', '[]', txt)[:40], 'src/integrator_whfast.c:%s reb_whfast_calculate_jerk' % line,
+                           'the term %s has dimension %s; every contribution to the jerk must be %s (G m a / r^3 and G m (r.a) r / r^5)' % (txt, b, want))
+            elif len(samples) < 3:
+                samples.append('src/integrator_whfast.c:%s %s : %s' % (line, txt, b))
+        else:
+            ctx.report('R01.9', 'jerk:clash:%s' % txt[:40], 'src/integrator_whfast.c:%s reb_whfast_calculate_jerk' % line, 'dimension clash in %s: %s vs %s in %s' % (what, a, b, txt))
+    anchor(stores >= 18, 'accumulations into the jerk buffer in reb_whfast_calculate_jerk (found %d)' % stores)
+    n += t.checked
+    ctx.covered('R01.9', 'dimension typing of reb_whfast_calculate_jerk: every accumulation into the jerk buffer is L T^-4, all other sums and comparisons homogeneous', n, floor=40, samples=samples)
+
+
 def run(ctx):
+    rule_jerk_homogeneity(ctx)
     rule_bs_coupling(ctx)
     rule_dispatch(ctx)
     rule_compositions(ctx)
